@@ -389,3 +389,121 @@ func verif_C03_starttls_stub() {
 	}
 	verifReach("C03.starttls-end")
 }
+
+// verif_C03_step: ONE command from an ARBITRARY connection state that
+// satisfies the invariant
+//
+//	Inv: (helo != "") == greeted == (session != nil); fromReceived == mail;
+//	     len(recipients) == rcpts; rcpts > 0 => mail; mail => greeted;
+//	     0 <= errCount <= 3; maxRcpt > 0 => rcpts <= maxRcpt; no transfer open
+//
+// built directly (not by running a history). The callbacks, the reply class
+// and the successor state must be those of the reference model's step from
+// the same abstract state, and the successor state satisfies Inv again. With
+// the base case (a fresh Conn is the all-false state) this is induction over
+// history length: the agreement with the reference holds for histories of
+// every length over the alphabet (BDAT/AUTH/STARTTLS states are outside).
+func verif_C03_step() {
+	lmtp := nondetBool()
+	maxRcpt := 0
+	if nondetBool() {
+		maxRcpt = 2
+	}
+	greeted := nondetBool()
+	mail := greeted && nondetBool()
+	rcpts := 0
+	if mail {
+		rcpts = nondetInt(0, 2)
+	}
+	errs := nondetInt(0, 3)
+	be := &vbackend{}
+	acc := nondetBool()
+	verdict := func() error {
+		if acc {
+			return nil
+		}
+		return verifErrBackend()
+	}
+	be.mailErr = func(string) error { return verdict() }
+	be.rcptErr = func(string) error { return verdict() }
+	be.dataFn = func(_ *vsession, r io.Reader) error {
+		verifReadAll(r, 8)
+		return verdict()
+	}
+	if !acc {
+		be.newSessionErr = verifErrBackend()
+	}
+	s, lg := verifServer(be)
+	s.LMTP = lmtp
+	s.MaxRecipients = maxRcpt
+	cmd := verifChoice(vcNumCmds)
+	vc := &vconn{final: io.EOF}
+	if cmd == vcDATA {
+		vc.in = []byte("hi\r\n.\r\n")
+	}
+	c := newConn(vc, s)
+	if greeted {
+		sess := &vsession{b: be, id: 1}
+		be.sessions = 1
+		be.lastSession = sess
+		c.session = sess
+		c.helo = "c.example"
+	}
+	c.fromReceived = mail
+	all := []string{"b@v", "c@v"}
+	c.recipients = append([]string(nil), all[:rcpts]...)
+	if rcpts == 0 && nondetBool() {
+		c.recipients = nil
+	}
+	c.errCount = errs
+	ref := &vref{lmtp: lmtp, maxRcpt: maxRcpt, greeted: greeted, mail: mail, rcpts: rcpts, errs: errs}
+	class := ref.step(cmd, acc)
+
+	name, arg, perr := parseCmd(verifCmdText[cmd])
+	verifAssert(perr == nil, "C03.step-alphabet-parses")
+	c.handle(name, arg)
+
+	reps, wf := verifParseReplies(vc.out)
+	verifObserve("c03step", lmtp, maxRcpt, greeted, mail, rcpts, errs, acc, cmd, wf, len(reps), len(be.trace))
+	verifAssert(wf && len(reps) >= 1 && lg.lines == 0, "C03.step-reply-present")
+	if !wf || len(reps) < 1 {
+		return
+	}
+	got := reps[len(reps)-1].code / 100
+	if ref.closed && cmd == vcUNKNOWN {
+		got = reps[0].code / 100
+	}
+	verifAssert(got == class, "C03.step-reply-class-matches-reference")
+	verifAssert(len(be.trace) == len(ref.expected), "C03.step-callback-count-matches-reference")
+	if len(be.trace) == len(ref.expected) {
+		for i, e := range be.trace {
+			x := ref.expected[i]
+			ok := e.kind == x.kind
+			if ok && (x.kind == "Mail" || x.kind == "Rcpt") {
+				ok = e.arg == x.arg
+			}
+			verifAssert(ok, "C03.step-callbacks-match-reference")
+		}
+	}
+	if ref.closed {
+		verifReach("C03.step-closed")
+		verifAssert(vc.closed && c.session == nil, "C03.step-closed-state")
+		return
+	}
+	verifReach("C03.step-open")
+	// successor state == reference successor, and Inv holds again
+	verifAssert(c.fromReceived == ref.mail && len(c.recipients) == ref.rcpts, "C03.step-envelope-matches-reference")
+	verifAssert((c.helo != "") == ref.greeted && (c.session != nil) == ref.greeted, "C03.step-greeting-matches-reference")
+	verifAssert(c.errCount == ref.errs && c.errCount <= 3, "C03.step-error-count-matches-reference")
+	verifAssert(c.bdatPipe == nil && !c.didAuth, "C03.step-no-transfer-no-auth")
+	verifAssert(!(ref.rcpts > 0) || ref.mail, "C03.step-inv-rcpts-imply-mail")
+	verifAssert(!ref.mail || ref.greeted, "C03.step-inv-mail-implies-greeted")
+	verifAssert(maxRcpt == 0 || len(c.recipients) <= maxRcpt, "C03.step-inv-recipient-limit")
+	for i, r := range c.recipients {
+		if i < rcpts {
+			verifAssert(r == all[i], "C03.step-recipient-list-kept")
+		} else {
+			verifAssert(i == rcpts && (r == "b@v" || r == "c@v"), "C03.step-recipient-appended")
+		}
+	}
+}
